@@ -1,14 +1,14 @@
-\* (i) Bidirectional - exhaustive: safety + liveness (weak fairness on the copiers and main)
-\* bounds: each endpoint sends at most MaxSend payload units; every order of
-\* send/half-close/close/error on both endpoints; all four CloseWrite-support combinations
+\* (i) Bidirectional under tunnel.Tunnel: the idle monitor (monitorTimeout) next to runDataCopy, as patched by
+\* C12-4 (every Read/Write of the tunnel conn that moves data signals activityChan).  IdleMax = 2 ticks.  The monitor
+\* closes the tunnel only after IdleMax ticks without any data movement (BMonitorOnlyIdle); safety + liveness.
 CONSTANTS
   MaxSend = 1
   EofWithData = TRUE
   ShapesA <- LocalShapes
-  ShapesB <- AllShapes
+  ShapesB <- TwoShapes
   DevDeadlineAt = "none"
   DevDeadlineHits = {"read"}
-  Monitor = FALSE
+  Monitor = TRUE
   IdleMax = 2
   DevMonNoFeed = FALSE
   DevCloseWriterFallback = FALSE
